@@ -55,6 +55,21 @@ CLAIMED = {
         "labels = original positions, fill rows missing.",
    note="All-miss 'drop' lists and explicitly supplied duplicate dimension names are outside the quantifier and not generated.",
    ref="5 C05"),
+ "C15": dict(
+   text="TLC checks on the bounded universe that the specification's export list (valid cells only, ascending, each with its "
+        "linear and native index) satisfies OnlyValidCells / EveryValidCellOnce / LinearOrder / IndexesIdentifyCell; files written "
+        "by write_geojson / write_shapefile / write_wkt / write_wkb for generated datasets of every convention are read back "
+        "with independent readers and the feature lists validated by TLC against the cell function (ExportCells, ExportIndexes).",
+   note="Third-party encoders/decoders trusted; rings compared up to start vertex and direction; shapefile attributes read by field position.",
+   ref="5 C15"),
+ "C19": dict(
+   text="TLC checks on the bounded universe that the specification's collection pairs every valid cell's outline with that cell's "
+        "value (one patch per valid cell, none for holes) and that a variable with leftover dimensions has no collection; recorded "
+        "matplotlib artists (PolyCollection paths / array / clim / transform, Quiver XY / U / V / mask) for generated datasets with "
+        "holes, scalars by name / as arrays / anonymous, either dimension order, clim / array / transform overrides and the two "
+        "refusals are validated by TLC (PatchPerValidCell, ValuePairs, ClimSpansValues, OverridesRespected, Refused, QuiverPairs).",
+   note="Artists' contents only (no rendering). Quiver components are read through matplotlib's joint mask.",
+   ref="5 C19"),
 }
 PENDING_REASON = "check not built yet in this round (specification and binding under construction; see DESIGN.md section 13)"
 props = [json.loads(l) for l in (V / "properties.jsonl").read_text().splitlines() if l.strip()]
